@@ -326,6 +326,18 @@ func c25check(t interface {
 	if c1 == c2 && g.Cmp(c25max) != 0 {
 		t.Fatalf("CalculateThreshold(%d,%d,%d) = %s: c = 1 must saturate at 2^128-1", c1, c2, n, g)
 	}
+	if n == 1 && c1 != c2 {
+		// theta = 1: pow(x, 1.0) returns x exactly in every libm (Rust's powf and Go's
+		// math.Pow alike), so Substrate's f64 evaluation p = 1 - (1 - c) is fully
+		// determined by IEEE-754 and the threshold is floor(2^128 p) exactly - no tolerance.
+		one53 := c25f64().SetInt64(1)
+		p53 := c25f64().Sub(one53, r.xf)
+		want := c25clamp(c25scale(c25f().Set(p53)))
+		if g.Cmp(want) != 0 {
+			t.Fatalf("CalculateThreshold(%d,%d,1) = %s; with one authority the f64 computation 1-(1-c) is exact and gives %s (c_f64=%s)",
+				c1, c2, g, want, r.cf.Text('g', 20))
+		}
+	}
 	d := new(big.Int).Sub(g, r.tA)
 	if d.CmpAbs(c25tolA) > 0 {
 		t.Fatalf("CalculateThreshold(%d,%d,%d) = %s; f64-input reference floor(2^128(1-x^th)) = %s with x=%s th=%s; |diff| = %s > 2^77",
